@@ -49,24 +49,54 @@ def dict_parts(I, d):
 def order_axioms(I, dom, sq, full=False):
     """the order oracle `sq` enumerates `dom` without duplicates"""
     st = I.st
-    st.assume(SetOfArr(sq.arr, sq.n) == dom)
+    st.assume(set_term_ax(I, sq) == dom)
     st.assume(sq.n >= 0)
     if not full:
         return None
     i = z3.Const("i!ord", I_)
     k = z3.Const("k!ord", V)
     idx = z3.Function(f"idx!{fresh('f', I_)}", V, I_)
-    st.assume(z3.ForAll([i], z3.Implies(z3.And(i >= 0, i < sq.n),
-                                        z3.And(z3.Select(dom, sq.at(i)), idx(sq.at(i)) == i)),
-                        patterns=[sq.at(i)]))
-    st.assume(z3.ForAll([k], z3.Implies(z3.Select(dom, k),
-                                        z3.And(idx(k) >= 0, idx(k) < sq.n, sq.at(idx(k)) == k)),
-                        patterns=[z3.Select(dom, k)]))
+    st.assume(forall([i], z3.Implies(z3.And(i >= 0, i < sq.n),
+                                        z3.And(z3.Select(dom, sq.at(i)), idx(sq.at(i)) == i)), [sq.at(i)]))
+    st.assume(forall([k], z3.Implies(z3.Select(dom, k),
+                                        z3.And(idx(k) >= 0, idx(k) < sq.n, sq.at(idx(k)) == k)), [z3.Select(dom, k)]))
     return idx
 
 
 def sq_of(I, items):
     return Sq.of([I.lift(x) for x in items])
+
+
+def concat_ax(I, a, b):
+    """a ++ b; for symbolic lengths a fresh array with two-way element axioms (E-matching friendly)"""
+    if b.units() is not None:
+        return a.concat(b)
+    st = I.st
+    out = Sq(fresh("cat", VArr), a.n + b.n)
+    i = z3.Const("i!cat", I_)
+    st.assume(forall([i], z3.Implies(z3.And(i >= 0, i < a.n), out.at(i) == a.at(i)), [out.at(i)]))
+    st.assume(forall([i], z3.Implies(z3.And(i >= a.n, i < a.n + b.n), out.at(i) == b.at(i - a.n)), [out.at(i)]))
+    st.assume(forall([i], z3.Implies(z3.And(i >= 0, i < a.n), out.at(i) == a.at(i)), [a.at(i)]))
+    st.assume(forall([i], z3.Implies(z3.And(i >= 0, i < b.n), out.at(i + a.n) == b.at(i)), [b.at(i)]))
+    return out
+
+
+def set_term_ax(I, sq):
+    """element set of a sequence; for symbolic length the defining axioms of SetOfArr are added to the pc"""
+    t = sq.set_term()
+    if sq.units() is not None:
+        return t
+    st = I.st
+    key = ("setofarr", sq.arr.get_id(), sq.n.get_id())
+    if key in st.gmemo:
+        return t
+    st.gmemo[key] = (sq.arr, sq.n)
+    i = z3.Const("i!soa", I_)
+    k = z3.Const("k!soa", V)
+    idx = z3.Function(f"soa_idx!{fresh('f', I_)}", V, I_)
+    st.assume(forall([i], z3.Implies(z3.And(i >= 0, i < sq.n), z3.Select(t, sq.at(i))), [sq.at(i)]))
+    st.assume(forall([k], z3.Implies(z3.Select(t, k), z3.And(idx(k) >= 0, idx(k) < sq.n, sq.at(idx(k)) == k)), [z3.Select(t, k)]))
+    return t
 
 
 I_ = z3.IntSort()
@@ -244,7 +274,7 @@ def contains(I, cont, x):
         if cont.kind == "setlike":
             return z3.Select(cont.base, I.lift(x))
         if cont.kind == "seq":
-            return z3.Select(cont.base.set_term(), I.lift(x))
+            return z3.Select(set_term_ax(I, cont.base), I.lift(x))
         raise OutsideSubset(f"'in' on view {cont.kind}")
     if not is_v(cont):
         raise OutsideSubset(f"'in' on {cont!r}")
@@ -258,7 +288,7 @@ def contains(I, cont, x):
         units = seq_units(V.items(cont))
         if units is not None:
             return z3.Or([I.veq(x, u) for u in units]) if units else z3.BoolVal(False)
-        return z3.Select(Sq.from_tuple(cont).set_term(), x)
+        return z3.Select(set_term_ax(I, Sq.from_tuple(cont)), x)
     if t == "ref":
         k = I.kind(cont)
         rid = V.id(cont)
@@ -270,7 +300,7 @@ def contains(I, cont, x):
             units = st.list_sq(cont).units()
             if units is not None:
                 return z3.Or([I.veq(x, u) for u in units]) if units else z3.BoolVal(False)
-            return z3.Select(st.list_sq(cont).set_term(), x)
+            return z3.Select(set_term_ax(I, st.list_sq(cont)), x)
         if k == K_INST:
             r = I.call(I.getattr(cont, "__contains__"), [x])
             return I.truthy(r)
@@ -347,7 +377,7 @@ def binop(I, op, a, b, inplace=False):
         ka, kb = I.kind(a), I.kind(b)
         h = st.h
         if ka == K_LIST and kb == K_LIST and isinstance(op, ast.Add):
-            new = st.list_sq(a).concat(st.list_sq(b))
+            new = concat_ax(I, st.list_sq(a), st.list_sq(b))
             if inplace:
                 st.set_list(a, new)
                 return a
@@ -409,8 +439,93 @@ def unpack(I, v, n):
 # ----------------------------------------------------------------------------------------------
 # iteration
 # ----------------------------------------------------------------------------------------------
+def _ite_leaves(t, out, depth=0):
+    t = z3.simplify(t)
+    if z3.is_int_value(t):
+        out.add(t.as_long())
+        return True
+    if z3.is_app(t) and t.decl().kind() == z3.Z3_OP_ITE and depth < 8:
+        return _ite_leaves(t.arg(1), out, depth + 1) and _ite_leaves(t.arg(2), out, depth + 1)
+    return False
+
+
+def _mentions_ite(t):
+    stack = [t]
+    seen = set()
+    while stack:
+        x = stack.pop()
+        if x.get_id() in seen:
+            continue
+        seen.add(x.get_id())
+        if z3.is_app(x) and x.decl().kind() == z3.Z3_OP_ITE:
+            return True
+        stack.extend(x.children())
+    return False
+
+
+def state_has_q(p):
+    from .state import has_quantifier
+    return has_quantifier(p)
+
+
+def fix_small_length(I, sq):
+    """if the length is an if-then-else over a few numerals, fork on its value and return the elements"""
+    leaves = set()
+    if sq.units() is not None:
+        return sq.units()
+    if not _ite_leaves(sq.n, leaves):
+        # ask the solver which lengths are possible (only worthwhile for terms built by the code itself)
+        if not _mentions_ite(sq.n):
+            return None
+        leaves = set()
+        st = I.st
+        for _ in range(7):
+            s_ = z3.Solver()
+            s_.set("timeout", 2000)
+            for p_ in st.pc:
+                if not state_has_q(p_):
+                    s_.add(p_)
+            for kv in leaves:
+                s_.add(sq.n != kv)
+            r_ = s_.check()
+            if r_ == z3.unsat:
+                break
+            if r_ != z3.sat:
+                return None
+            v_ = s_.model().eval(sq.n, model_completion=True)
+            if not z3.is_int_value(v_):
+                return None
+            leaves.add(v_.as_long())
+        else:
+            return None
+    if not leaves or len(leaves) > 6 or max(leaves) > 32:
+        return None
+    for k in sorted(leaves):
+        if I.st.decide(sq.n == k, f"len=={k}"):
+            return [z3.simplify(sq.at(i)) for i in range(k)]
+    raise PathEnd()
+
+
 def iterate_concrete(I, it):
     """host list of the elements if the iterable has a syntactically known length, else None"""
+    r = _iterate_concrete(I, it)
+    if r is None:
+        it2 = I.lower(it)
+        st = I.st
+        if is_v(it2) and I.tag(it2, cheap=True) == "ref":
+            k = I.kind(it2)
+            if k == K_LIST:
+                return fix_small_length(I, st.list_sq(it2))
+            if k == K_DICT:
+                return fix_small_length(I, st.dict_order(it2))
+        if isinstance(it2, HView) and it2.kind in ("keys", "items", "values"):
+            u = fix_small_length(I, st.dict_order(it2.base))
+            if u is not None:
+                return _iterate_concrete(I, it2, u)
+    return r
+
+
+def _iterate_concrete(I, it, forced_units=None):
     st = I.st
     h = st.h
     it = I.lower(it)
@@ -438,7 +553,7 @@ def iterate_concrete(I, it):
             return None if items is None else list(reversed(items))
         if it.kind in ("keys", "values", "items"):
             dom, val, ordsq = dict_parts(I, it.base)
-            units = ordsq.units()
+            units = forced_units if forced_units is not None else ordsq.units()
             if units is None:
                 return None
             if it.kind == "keys":
@@ -571,7 +686,7 @@ def as_set_term(I, it):
         if it.kind == "keys":
             return as_set_term(I, it.base)
         if it.kind == "seq":
-            return it.base.set_term()
+            return set_term_ax(I, it.base)
         raise OutsideSubset(f"set() of view {it.kind}")
     items = iterate_concrete(I, it)
     if items is not None:
@@ -587,9 +702,9 @@ def as_set_term(I, it):
         if k == K_SET:
             return z3.Select(h.sdom, V.id(it))
         if k == K_LIST:
-            return I.st.list_sq(it).set_term()
+            return set_term_ax(I, I.st.list_sq(it))
     if t == "tup":
-        return Sq.from_tuple(it).set_term()
+        return set_term_ax(I, Sq.from_tuple(it))
     if t == "none":
         I.raise_(TypeError, origin=("iter-none",))
     raise OutsideSubset("set() of unsupported iterable")
@@ -638,6 +753,10 @@ def comprehension(I, e, env, kind):
         snap_len = len(results)
         first_it = I.ev(gens[0].iter, inner)
         items = iterate_concrete(I, first_it)
+        if items is not None and len(gens) == 1 and gens[0].ifs and kind in ("dict", "list", "set"):
+            r = _concrete_filtered(I, e, inner, kind, items)
+            if r is not None:
+                return r
         if items is not None:
             # re-run through rec with the already evaluated iterable
             for x in items:
@@ -653,6 +772,65 @@ def comprehension(I, e, env, kind):
         if len(gens) == 1:
             return _symbolic_comp(I, e, env, inner, kind, first_it)
     raise OutsideSubset("comprehension over symbolic iterable (nested)")
+
+
+def _concrete_filtered(I, e, inner, kind, items):
+    """single-generator comprehension with a filter over a known number of elements: conditional inserts,
+    no path split per element (falls back to forking when an element expression forks or may raise)"""
+    st = I.st
+    g = e.generators[0]
+    snap = st.snapshot()
+    envsnap = dict(inner.vars)
+    try:
+        if kind == "dict":
+            out = st.new_dict()
+        elif kind == "set":
+            out = st.new_set()
+        else:
+            out = st.new_list()
+        rid = V.id(out)
+        h = st.h
+        for x in items:
+            I.assign_target(g.target, x, inner)
+
+            def cond():
+                c = z3.BoolVal(True)
+                for cnd in g.ifs:
+                    c = z3.And(c, I.truthy(I.ev(cnd, inner)))
+                return c
+            c = pure_eval(I, cond)
+            st.pc.append(c)
+            try:
+                if kind == "dict":
+                    kv = pure_eval(I, lambda: (I.lift(I.ev(e.key, inner)), I.lift(I.ev(e.value, inner))))
+                else:
+                    kv = pure_eval(I, lambda: I.lift(I.ev(e.elt, inner)))
+            finally:
+                st.pc.pop()
+            h = st.h
+            if kind == "dict":
+                key, val = kv
+                dom = z3.Select(h.ddom, rid)
+                present = z3.Select(dom, key)
+                oldlen = z3.Select(h.dlen, rid)
+                h.dord = z3.Store(h.dord, rid, z3.If(z3.And(c, z3.Not(present)), z3.Store(z3.Select(h.dord, rid), oldlen, key), z3.Select(h.dord, rid)))
+                h.dlen = z3.Store(h.dlen, rid, z3.If(z3.And(c, z3.Not(present)), oldlen + 1, oldlen))
+                h.ddom = z3.Store(h.ddom, rid, z3.If(c, z3.Store(dom, key, True), dom))
+                h.dval = z3.Store(h.dval, rid, z3.If(c, z3.Store(z3.Select(h.dval, rid), key, val), z3.Select(h.dval, rid)))
+            elif kind == "set":
+                dom = z3.Select(h.sdom, rid)
+                present = z3.Select(dom, kv)
+                h.slen = z3.Store(h.slen, rid, z3.If(z3.And(c, z3.Not(present)), z3.Select(h.slen, rid) + 1, z3.Select(h.slen, rid)))
+                h.sdom = z3.Store(h.sdom, rid, z3.If(c, z3.Store(dom, kv, True), dom))
+            else:
+                n = z3.Select(h.llen, rid)
+                h.larr = z3.Store(h.larr, rid, z3.If(c, z3.Store(z3.Select(h.larr, rid), n, kv), z3.Select(h.larr, rid)))
+                h.llen = z3.Store(h.llen, rid, z3.If(c, n + 1, n))
+        return out
+    except OutsideSubset:
+        st.restore(snap)
+        inner.vars = envsnap
+        return None
 
 
 def _build(I, kind, results):
@@ -726,7 +904,8 @@ def _symbolic_comp(I, e, env, inner, kind, it):
         finally:
             del st.pc[npc - 1:]
         if extra:
-            raise OutsideSubset("comprehension body adds assumptions")
+            # facts learnt about the bound element hold for every element of the source
+            st.assume(forall([xb], z3.Implies(z3.Select(setlike_src, xb), z3.And(extra))))
         if elt.eq(xb):
             k = z3.Const("k!comp", V)
             dom = z3.Lambda([k], z3.And(z3.Select(setlike_src, k), z3.substitute(c, (xb, k))))
@@ -755,6 +934,28 @@ def _symbolic_comp(I, e, env, inner, kind, it):
         out = Sq(z3.Lambda([i], z3.substitute(elt, (xb, seq.at(i)))), seq.n)
         if kind == "gen":
             return HView("seqpred", (seq, xb, elt, out))
+        return st.new_list(out)
+    if kind == "list" and g.ifs:
+        # filtered list: a fresh sequence whose element set is the filtered source; empty iff nothing passes
+        I.assign_target(g.target, xb, inner)
+
+        def body2():
+            c = z3.BoolVal(True)
+            for cnd in g.ifs:
+                c = z3.And(c, I.truthy(I.ev(cnd, inner)))
+            return c, I.lift(I.ev(e.elt, inner))
+        c, elt = pure_eval(I, body2)
+        out = Sq(fresh("filt", VArr), fresh("filtn", I_))
+        i = z3.Const("i!flt", I_)
+        j = z3.Const("j!flt", I_)
+        sub = lambda t, at: z3.substitute(t, (xb, at))
+        st.assume(out.n >= 0)
+        st.assume(out.n <= seq.n)
+        st.assume((out.n == 0) == z3.ForAll([i], z3.Implies(z3.And(i >= 0, i < seq.n), z3.Not(sub(c, seq.at(i))))))
+        src = z3.Function(f"src!{fresh('f', I_)}", I_, I_)
+        st.assume(forall([j], z3.Implies(z3.And(j >= 0, j < out.n),
+                                            z3.And(src(j) >= 0, src(j) < seq.n, sub(c, seq.at(src(j))),
+                                                   out.at(j) == sub(elt, seq.at(src(j))))), [out.at(j)]))
         return st.new_list(out)
     if kind == "gen" and g.ifs:
         I.assign_target(g.target, xb, inner)
@@ -803,6 +1004,8 @@ def call_method(I, recv, name, args, kwargs, star):
     if t == "tup":
         if name == "index" or name == "count":
             raise OutsideSubset("tuple." + name)
+    if t == "obj":
+        return I.spec.obj_method_call(I, recv, name, args, kwargs, star)
     raise OutsideSubset(f"method {name} on value of tag {t}")
 
 
@@ -880,7 +1083,7 @@ def _list_method(I, l, rid, name, args, kwargs):
     if name == "extend":
         items = iterate_concrete(I, args[0])
         other = sq_of(I, items) if items is not None else iterate_seq(I, args[0])
-        st.set_list(l, sq.concat(other))
+        st.set_list(l, concat_ax(I, sq, other))
         I.spec.on_write(I, "list", l, None)
         return NONE
     if name == "copy":
@@ -900,7 +1103,7 @@ def _list_method(I, l, rid, name, args, kwargs):
     if name == "sort":
         if kwargs or args:
             raise OutsideSubset("list.sort with key")
-        dom = sq.set_term()
+        dom = set_term_ax(I, sq)
         assume_lib("sorted", "list.sort()/sorted() of duplicate-free input is a function of the element set")
         st.set_list(l, Sq(SortedArr(dom), sq.n))
         return NONE
@@ -1084,17 +1287,33 @@ def isinstance_cond(I, v, cls, register=True):
         return z3.Or(z3.And(V.is_ref(v), z3.Select(h.kind, rid) == K_INST, issub(c1, cls.cid)),
                      z3.And(V.is_obj(v), issub(c2, cls.cid)))
     if is_v(cls) and I.tag(cls) == "cls":
-        # symbolic class
-        t = I.tag(v, cheap=True)
-        cid = V.cid(cls)
-        if t == "obj":
-            return issub(objcls(V.oid(v)), cid)
-        if t == "ref":
-            return z3.And(z3.Select(h.kind, V.id(v)) == K_INST, issub(z3.Select(h.cls, V.id(v)), cid))
-        return I.spec.isinstance_unknown(I, v, cls)
+        return instof(I, v, V.cid(cls))
     if isinstance(cls, O.HExt):
         return I.spec.isinstance_ext(I, v, cls)
     raise OutsideSubset(f"isinstance against {cls!r}")
+
+
+def instof(I, v, cid):
+    """isinstance(v, C) for a class given by its id term (concrete or symbolic): by constructor"""
+    st = I.st
+    h = st.h
+    prim = {"none": type(None), "bool": bool, "int": int, "str": str, "real": float, "tup": tuple}
+    disj = []
+    for tg, py in prim.items():
+        ci = O.builtin_class(py)
+        st.mention(ci, target=True)
+        disj.append(z3.And(getattr(V, "is_" + tg)(v), issub(ci.cid, cid)))
+    rid = V.id(v)
+    for kd, py in ((K_DICT, dict), (K_LIST, list), (K_SET, set)):
+        ci = O.builtin_class(py)
+        st.mention(ci, target=True)
+        disj.append(z3.And(V.is_ref(v), z3.Select(h.kind, rid) == kd, issub(ci.cid, cid)))
+    disj.append(z3.And(V.is_ref(v), z3.Select(h.kind, rid) == K_INST, issub(z3.Select(h.cls, rid), cid)))
+    disj.append(z3.And(V.is_obj(v), issub(objcls(V.oid(v)), cid)))
+    tci = O.builtin_class(type)
+    st.mention(tci, target=True)
+    disj.append(z3.And(V.is_cls(v), issub(tci.cid, cid)))
+    return z3.Or(disj)
 
 
 def type_of(I, v):
@@ -1126,19 +1345,53 @@ def type_of(I, v):
     if t == "obj":
         return V.cls(objcls(V.oid(v)))
     if t is None:
-        # case split on the constructor (each side learns the tag)
-        for nm in ("none", "bool", "int", "str", "real", "tup", "ref", "obj", "cls"):
-            if st.decide(getattr(V, "is_" + nm)(v), f"type():{nm}"):
-                st.tags[v.get_id()] = nm
-                st._tagkeep.append(v)
-                return type_of(I, v)
+        split_tag(I, v, "type()")
+        return type_of(I, v)
+    if t == "ref" and I.kind(v) is None:
+        split_kind(I, v, "type()")
+        return type_of(I, v)
+    if t in ("cls",):
+        return O.builtin_class(type)
+    if t == "fn":
+        import types
+        return O.builtin_class(types.FunctionType)
     return I.spec.type_unknown(I, v)
+
+
+def split_tag(I, v, label="tag"):
+    """fork on the constructor of a value whose tag is not determined; returns the tag"""
+    t = I.tag(v)
+    if t is not None:
+        return t
+    st = I.st
+    for nm in ("none", "bool", "int", "str", "real", "tup", "ref", "obj", "cls", "fn"):
+        if st.decide(getattr(V, "is_" + nm)(v), f"{label}:{nm}"):
+            st.tags[v.get_id()] = nm
+            st._tagkeep.append(v)
+            return nm
+    raise PathEnd()
+
+
+def split_kind(I, v, label="kind"):
+    k = I.kind(v)
+    if k is not None:
+        return k
+    st = I.st
+    for c in (K_DICT, K_LIST, K_SET, K_INST):
+        if st.decide(z3.Select(st.h.kind, V.id(v)) == c, f"{label}:{c}"):
+            st.tags[("kind", v.get_id())] = c
+            st._tagkeep.append(v)
+            return c
+    raise PathEnd()
 
 
 def vlen(I, v):
     st = I.st
     h = st.h
     v = I.lower(v)
+    if is_v(v):
+        if split_tag(I, v, "len") == "ref":
+            split_kind(I, v, "len")
     if isinstance(v, HView):
         if v.kind in ("keys", "values", "items"):
             return vint(z3.Select(h.dlen, V.id(v.base)))
@@ -1165,7 +1418,7 @@ def vlen(I, v):
             return I.call(I.getattr(v, "__len__"), [])
     if t == "obj":
         return I.spec.obj_len(I, v)
-    if t in ("none", "int", "bool", "real"):
+    if t in ("none", "int", "bool", "real", "cls", "fn"):
         I.raise_(TypeError, origin=("len",))
     raise OutsideSubset(f"len of value of tag {t}")
 
@@ -1350,7 +1603,9 @@ def call_ext(I, dotted, args, kwargs, star, env):
         items = iterate_concrete(I, src)
         if items is not None and len(items) <= 1:
             return st.new_list(sq_of(I, items))
-        return st.new_list(Sq(SortedArr(dom), n))
+        out = Sq(SortedArr(dom), n)
+        st.assume(set_term_ax(I, out) == dom)
+        return st.new_list(out)
     if name == "builtins.any" or name == "builtins.all":
         want_all = name.endswith("all")
         src = I.lower(args[0])
@@ -1441,7 +1696,7 @@ def _int_conv(I, args):
             I.raise_(ValueError, origin=("int()",))
         return vint(parse(V.s(x)))
     if t == "real":
-        return vint(z3.ToInt(V.r(x))) if False else vint(z3.Function("trunc", z3.RealSort(), I_)(V.r(x)))
+        return vint(z3.If(V.r(x) >= 0, z3.ToInt(V.r(x)), -z3.ToInt(-V.r(x))))
     # unknown tag: case split by the solver-visible tag
     if st.decide(V.is_int(x), "int(x):is-int"):
         return x
@@ -1452,7 +1707,7 @@ def _int_conv(I, args):
             I.raise_(ValueError, origin=("int()",))
         return vint(parse(V.s(x)))
     if st.decide(V.is_real(x), "int(x):is-real"):
-        return vint(z3.Function("trunc", z3.RealSort(), I_)(V.r(x)))
+        return vint(z3.If(V.r(x) >= 0, z3.ToInt(V.r(x)), -z3.ToInt(-V.r(x))))
     if st.decide(z3.Or(V.is_none(x), V.is_ref(x), V.is_tup(x), V.is_cls(x), V.is_fn(x)), "int(x):typeerror"):
         I.raise_(TypeError, origin=("int()",))
     return I.spec.int_unknown(I, x)
